@@ -15,7 +15,7 @@ hierarchy and every way of tampering with any response, since the upstream is ar
   * `no_panic_partial`, `orphan_dnskey_rrsig_panics`        (finding C07.OrphanDnskeyRrsigPanic)
   * `ds_answer_without_ds_downgrades`                        (finding C07.DsAnswerWithoutDsAccepted)
   * `insecure_implies_denial_partial`
-  * `ad_only_if_all_secure`, `bogus_servfail_unless_cd`     (server mapping)
+  * `ad_only_if_all_secure_partial`, `ad_with_bogus_soa`, `bogus_servfail_unless_cd`, `error_servfail`  (server mapping)
 -/
 import HickoryVerif.Lemmas.Chain
 
@@ -156,6 +156,79 @@ theorem secure_dnskey_implies {env : Env} (hc : UpClean env) {fuel d : Nat} {q :
   obtain ⟨m0, _, hs⟩ := validate_sound hc fuel d q m h
   have hns : r.isSig = false := by simp [Rec.isSig, hk, tDNSKEY, tRRSIG]
   exact ((hs sec hsec r hr).2 hp hns).2 hk
+
+/-- **C07 for DNSKEY records, strict reading (partial).**  Full statement: a DNSKEY returned Secure is a trust
+anchor or a member of a DNSKEY RRset *signed* by an individually trusted key (`KeySigned`) — false for the
+code as it is (`unsigned_dnskey_rrset_secure`).  Proved under the hypothesis that the validated section shows,
+next to the key, a Secure RRSIG over its RRset (`unsignedSecureDnskeyIn … = false`): then that RRSIG is the
+one that validated the RRset. -/
+theorem secure_dnskey_signed_partial {env : Env} (hc : UpClean env) {fuel d : Nat} {q : Query} {m : Msg}
+    (h : validate env fuel d q = .ok m) {sec : Nat} (hsec : sec < 3) {r : Rec} (hr : r ∈ m.sec sec)
+    (hp : r.proof = .secure) (hk : r.rtype = tDNSKEY) (hsig : unsignedSecureDnskeyIn (m.sec sec) = false) :
+    KeySigned env q sec r.raw := by
+  -- a Secure RRSIG over the key's RRset sits in the validated section
+  have hex : ∃ s ∈ m.sec sec, s.isSig = true ∧ s.covered = tDNSKEY ∧ s.name = r.name ∧ s.proof = .secure := by
+    unfold unsignedSecureDnskeyIn at hsig
+    have hr' := (List.any_eq_false.mp hsig) r hr
+    have hinner : ((m.sec sec).any fun s => s.isSig && s.covered == tDNSKEY && s.name == r.name && s.proof == .secure) = true := by
+      cases hx : ((m.sec sec).any fun s => s.isSig && s.covered == tDNSKEY && s.name == r.name && s.proof == .secure) with
+      | true => rfl
+      | false => simp [hk, hp, hx] at hr'
+    obtain ⟨s, hs, hcond⟩ := List.any_eq_true.mp hinner
+    simp only [Bool.and_eq_true, beq_iff_eq] at hcond
+    exact ⟨s, hs, hcond.1.1.1, hcond.1.1.2, hcond.1.2, hcond.2⟩
+  obtain ⟨s, hs, hss, hsc, hsn, hsp⟩ := hex
+  cases fuel with
+  | zero => simp [validate] at h
+  | succ n =>
+    unfold validate at h
+    have hsub : ∀ q' m', validate env n (d + 1) q' = .ok m' → Sound env q' m' :=
+      fun q' m' h' => validate_sound hc n (d + 1) q' m' h'
+    obtain ⟨m0, hup, hm⟩ := verifyResponse_ok _ _ _ _ _ h
+    have hm' := verifyMsg_ok _ _ _ _ _ _ _ hm
+    have hrel : m.sec sec = relabel (m0.sec sec)
+        (verdicts env (validate env n (d + 1)) (d + 1) q (env.up q).qid sec (m0.sec sec)) := by
+      subst hm'
+      match sec, hsec with
+      | 0, _ => rfl
+      | 1, _ => rfl
+      | 2, _ => rfl
+    rw [hrel] at hr hs
+    obtain ⟨i, r0, hr0, hrr⟩ := relabel_mem _ _ _ hr
+    obtain ⟨j, s0, hs0, hsr⟩ := relabel_mem _ _ _ hs
+    have hind : r0.proof = .indet := upMsg_clean hc hup sec r0 hr0
+    have hinds : s0.proof = .indet := upMsg_clean hc hup sec s0 hs0
+    have hraw : r.raw = r0 := by rw [hrr, relabelOne_raw, raw_of_indet _ hind]
+    have hraws : s.raw = s0 := by rw [hsr, relabelOne_raw, raw_of_indet _ hinds]
+    have hnsig0 : r0.isSig = false := by rw [← hraw]; simp [Rec.isSig, hk, tDNSKEY, tRRSIG]
+    have hss0 : s0.isSig = true := by rw [← hraws]; simpa [Rec.isSig] using hss
+    have hk0 : r0.rtype = tDNSKEY := by rw [← hraw]; exact hk
+    obtain ⟨idx, hl⟩ := relabelOne_secure _ _ i r0 (by simp [hind]) (hrr ▸ hp)
+    obtain ⟨jj, hls⟩ := relabelOne_proof_sig _ _ j s0 .secure hss0 (by simp [hinds]) (hsr ▸ hsp)
+    -- both lookups hit the same RRset
+    have hkey : s0.gkey = r0.gkey := by
+      rw [gkey_of_not_sig hnsig0]
+      have h1 : s0.name = r0.name := by rw [← hraws, ← hraw]; exact hsn
+      have h2 : s0.covered = tDNSKEY := by rw [← hraws]; exact hsc
+      simp [Rec.gkey, Rec.gtype, hss0, h1, h2, hk0]
+    rw [hkey, hl] at hls
+    injection hls with hls
+    injection hls with _ hidx
+    obtain ⟨hv, _⟩ := verdicts_lookup _ _ _ _ _ _ _ _ _ hl
+    rw [gkey_of_not_sig hnsig0] at hv
+    unfold verifyGroup at hv
+    dsimp only at hv
+    rw [if_pos (by simpa using hk0)] at hv
+    obtain ⟨ds, hds, hcase⟩ := verifyDnskeyRrset_secure _ _ _ _ _ _ hv.symm
+    rw [hraw]
+    rcases hcase with ⟨jx, sig, k', _, hsj, hk', hok, hname, hres⟩ | ⟨hnone, _, _⟩
+    · obtain ⟨hs1, hs2, hs3, hs4⟩ := mem_groupSigs (List.mem_of_getElem? hsj)
+      obtain ⟨hk1, _, hk3, hk4⟩ := mem_groupRecs hk'
+      have hdir : DirectKey env k' := keyOk_direct hsub hds hk3 hok
+      exact Or.inr ⟨k', sig, _, m0, hup, hk1, by simpa using hk4.trans hk0, hk3, hdir, hs1, hs2, hs3,
+        by simpa using hs4.trans hk0, hname, by simpa [hk0] using hres⟩
+    · rw [hnone] at hidx
+      simp at hidx
 
 /-- a returned record is a record of the upstream's response (nothing is invented; only proofs change) -/
 theorem returned_records_from_upstream {env : Env} (hc : UpClean env) {fuel d : Nat} {q : Query} {m : Msg}
@@ -397,41 +470,65 @@ theorem summaryGo_bogus_of_mem (rs : List Rec) (st : Option Bool) (h : ∃ r ∈
       · rfl
       · exact ih _ ⟨r, hx, hp⟩
 
-/-- **AD only if all Secure**: the forwarded response carries AD only when the validator returned `Ok` and
-every summarised record (a non-empty list: the answers, or the non-SOA authority records of a negative
-answer) is Secure. -/
-theorem ad_only_if_all_secure (cd : Bool) (r : Res) (h : (serverView cd r).2 = true) :
-    ∃ m, r = .ok m ∧ summarised m ≠ [] ∧ ∀ x ∈ summarised m, x.proof = .secure := by
+/-- **AD only if all Secure** (as far as the code goes): the forwarded response carries AD only when the
+validator returned `Ok` and every summarised record — a non-empty list: the answers, or for a negative answer
+with a SOA the authority records *other than the SOA* — is Secure.  The full statement ("every record of the
+forwarded answer / authority section is Secure") fails for the SOA of a negative answer: `ad_with_bogus_soa`. -/
+theorem ad_only_if_all_secure_partial (cd : Bool) (q : Query) (r : Res) (h : (serverView cd q r).2 = true) :
+    (∃ m, r = .ok m) ∧ summarised q r ≠ [] ∧ ∀ x ∈ summarised q r, x.proof = .secure := by
+  have hok : ∃ m, r = .ok m := by
+    cases r with
+    | ok m => exact ⟨m, rfl⟩
+    | _ => simp [serverView, forwarded] at h
+  refine ⟨hok, ?_⟩
   unfold serverView at h
   split at h
-  · rename_i m
-    refine ⟨m, rfl, ?_⟩
+  · simp at h
+  · dsimp only at h
     split at h
     · rename_i hs
       obtain ⟨h1, h2, _⟩ := summaryGo_secure _ none hs
       exact ⟨by simpa using h2, h1⟩
     · split at h <;> simp at h
     · simp at h
-  · simp at h
-  · simp at h
 
 /-- **Bogus ⇒ SERVFAIL unless CD**: a Bogus record among the summarised ones makes the response SERVFAIL
 (without AD) for a client that did not set CD. -/
-theorem bogus_servfail_unless_cd (m : Msg) (h : ∃ x ∈ summarised m, x.proof = .bogus) :
-    serverView false (.ok m) = (some 2, false) := by
+theorem bogus_servfail_unless_cd (q : Query) (r : Res) (h : ∃ x ∈ summarised q r, x.proof = .bogus) :
+    serverView false q r = (2, false) := by
   rcases summaryGo_bogus_of_mem _ none h with hb | hf
-  · simp [serverView, summary, hb]
+  · unfold serverView
+    split
+    · rfl
+    · simp [summary, hb]
   · exact hf.elim
 
-/-- every error of the validator other than an NSEC error with proof Insecure is SERVFAIL without AD,
-whatever the CD bit -/
-theorem error_servfail (cd : Bool) (r : Res) (hok : ∀ m, r ≠ .ok m) (hi : r ≠ .errNsec .insecure) :
-    serverView cd r = (some 2, false) := by
-  unfold serverView
-  split
-  · rename_i m; exact absurd rfl (hok m)
-  · exact absurd rfl hi
-  · rfl
+/-- every error of the validator is SERVFAIL without AD, whatever the CD bit -/
+theorem error_servfail (cd : Bool) (q : Query) (r : Res) (hok : ∀ m, r ≠ .ok m) : serverView cd q r = (2, false) := by
+  cases r with
+  | ok m => exact absurd rfl (hok m)
+  | _ => simp [serverView, forwarded]
+
+/-- **Replay of `C07.AdIgnoresSoaProof`** (kernel-checked): a negative answer whose SOA is Bogus (say, its RRSIG
+was stripped) while the NSEC records are Secure is forwarded with AD set and NXDOMAIN, the Bogus SOA included. -/
+theorem ad_with_bogus_soa :
+    let nsec : Rec := { name := ["a", "z"], rtype := 47, rid := 0, proof := .secure }
+    let sig : Rec := { name := ["a", "z"], rtype := 46, rid := 1, covered := 47, signer := ["z"], labels := 2, proof := .secure }
+    let soa : Rec := { name := ["z"], rtype := 6, rid := 2, proof := .bogus }
+    let m : Msg := { rcode := 3, an := [], ns := [nsec, sig, soa], ad := [] }
+    soaOnlyNotSecure m = true ∧ serverView false ⟨["b", "z"], 1⟩ (.ok m) = (3, true) := by
+  decide
+
+/-- **Replay of `C07.BogusNegativeWithoutSoaForwarded`** (kernel-checked): a negative answer without a SOA record
+is forwarded to a CD=0 client with the upstream's NXDOMAIN although it carries a Bogus record (here the orphaned
+RRSIG of the SOA that was taken out). -/
+theorem bogus_negative_without_soa_forwarded :
+    let nsec : Rec := { name := ["a", "z"], rtype := 47, rid := 0, proof := .secure }
+    let sig : Rec := { name := ["a", "z"], rtype := 46, rid := 1, covered := 47, signer := ["z"], labels := 2, proof := .secure }
+    let sigSoa : Rec := { name := ["z"], rtype := 46, rid := 3, covered := 6, signer := ["z"], labels := 1, proof := .bogus }
+    let m : Msg := { rcode := 3, an := [], ns := [nsec, sig, sigSoa], ad := [] }
+    bogusNegativeWithoutSoa m = true ∧ serverView false ⟨["b", "z"], 1⟩ (.ok m) = (3, false) := by
+  decide
 
 /-! ## concrete upstreams: non-vacuity and the kernel-checked replays of the findings -/
 
@@ -539,14 +636,80 @@ example : Chain (mkEnv traceGood) qA 0 a :=
     rfl (by decide) (by decide)
 
 open Ex in
+/-- non-vacuity of `secure_dnskey_implies` / `secure_dnskey_signed_partial`: the signed DNSKEY RRset of `z.` -/
+theorem ex_good_dnskey :
+    validate (mkEnv traceGood) 27 0 qKz = .ok { rcode := 0, an := [sec' kz, sec' sigKz], ns := [], ad := [] } := by
+  decide
+
+open Ex in
+example : KeySigned (mkEnv traceGood) qKz 0 kz :=
+  secure_dnskey_signed_partial ex_good_clean ex_good_dnskey (sec := 0) (by omega) (r := sec' kz)
+    (by simp [Msg.sec]) rfl rfl (by decide)
+
+open Ex in
+example : KeySecure (mkEnv traceGood) qKz 0 kz :=
+  secure_dnskey_implies ex_good_clean ex_good_dnskey (sec := 0) (by omega) (r := sec' kz) (by simp [Msg.sec]) rfl rfl
+
+open Ex in
+/-- non-vacuity of the server lemmas: the good answer is forwarded NOERROR with AD; every summarised record Secure -/
+example : serverView false qA (validate (mkEnv traceGood) 27 0 qA) = (0, true) := by decide
+
+open Ex in
+example : ∃ x ∈ summarised qA (.ok { rcode := 0, an := [{ a with proof := .bogus }], ns := [], ad := [] }),
+    x.proof = .bogus := by decide
+
+open Ex in
 /-- **Replay of finding `C07.DsAnswerWithoutDsAccepted`** (kernel-checked): the same hierarchy, the DS record
 removed from the DS answer (class predicate holds) — the signed answer comes back *Insecure*, with no error
 (`Ok`), and the server forwards it as NOERROR without AD instead of SERVFAIL. -/
 theorem ds_answer_without_ds_downgrades :
     dsAnswerWithoutDs traceNoDs = true ∧
     validate (mkEnv traceNoDs none) 27 0 qA = .ok { rcode := 0, an := [ins' a, ins' sigA], ns := [], ad := [] } ∧
-    serverView false (validate (mkEnv traceNoDs none) 27 0 qA) = (some 0, false) := by
+    serverView false qA (validate (mkEnv traceNoDs none) 27 0 qA) = (0, false) := by
   decide
+
+open Ex in
+/-- non-vacuity of `insecure_implies_ds_without_secure_supported` (its hypotheses hold of the downgraded run) -/
+example : DsWithoutSecureSupported (mkEnv traceNoDs none) :=
+  insecure_implies_ds_without_secure_supported (upClean_of_trace _ _ _ _ _ (by decide)) 27 0 qA _
+    ds_answer_without_ds_downgrades.2.1 0 (by omega) (ins' a) (by simp [Msg.sec]) rfl
+
+/-- a replayed trace without orphan DNSKEY RRSIGs -/
+theorem noOrphan_of_trace (trace : List (Query × UpOut)) (anchor : Nat → Bool) (covers : Nat → Nat → Bool)
+    (sigRes : Nat → Nat → GroupId → SigRes) (nsec : Nat → Nat → Nat → Proof)
+    (h : orphanDnskeyRrsig trace = false) :
+    NoOrphan { up := traceUp trace, anchor := anchor, covers := covers, sigRes := sigRes, nsec := nsec } := by
+  intro q qid m hup sec hsec
+  unfold orphanDnskeyRrsig at h
+  simp only [List.any_eq_false] at h
+  unfold upMsg at hup
+  split at hup
+  · rename_i m' hm
+    obtain ⟨e, he, heq⟩ := traceFind_mem trace 0 q _ hm (by simp)
+    have := h e he
+    rw [heq] at this
+    simp only [Bool.or_eq_true, not_or, Bool.not_eq_true] at this
+    injection hup with hup; injection hup with _ hup; subst hup
+    match sec, hsec with
+    | 0, _ => exact this.1.1
+    | 1, _ => exact this.1.2
+    | 2, _ => exact this.2
+  · rename_i m' hm
+    obtain ⟨e, he, heq⟩ := traceFind_mem trace 0 q _ hm (by simp)
+    have := h e he
+    rw [heq] at this
+    simp only [Bool.or_eq_true, not_or, Bool.not_eq_true] at this
+    injection hup with hup; injection hup with _ hup; subst hup
+    match sec, hsec with
+    | 0, _ => simp [Msg.sec, orphanDnskeyRrsigIn]
+    | 1, _ => exact this.1.2
+    | 2, _ => simp [Msg.sec, orphanDnskeyRrsigIn]
+  · simp at hup
+
+open Ex in
+/-- non-vacuity of `no_panic_partial` -/
+example : validate (mkEnv traceGood) 27 0 qA ≠ .abort "panic" :=
+  no_panic_partial (noOrphan_of_trace _ _ _ _ _ (by decide)) 27 0 qA
 
 open Ex in
 /-- **Replay of finding `C07.OrphanDnskeyRrsigPanic`** (kernel-checked): an RRSIG covering DNSKEY without a
@@ -569,7 +732,7 @@ not a trust anchor and its RRset is not signed: `KeySigned` fails. -/
 theorem unsigned_dnskey_rrset_secure :
     validate (mkEnv traceUnsignedKey (some 1)) 27 0 qKz = .ok { rcode := 0, an := [sec' kz], ns := [], ad := [] } ∧
     unsignedSecureDnskeyIn [sec' kz] = true ∧
-    serverView false (validate (mkEnv traceUnsignedKey (some 1)) 27 0 qKz) = (some 0, true) ∧
+    serverView false qKz (validate (mkEnv traceUnsignedKey (some 1)) 27 0 qKz) = (0, true) ∧
     ¬ KeySigned (mkEnv traceUnsignedKey (some 1)) qKz 0 kz := by
   refine ⟨by decide, by decide, by decide, ?_⟩
   intro h
